@@ -149,3 +149,124 @@ func describeStop(c *engine.Ctx, in ssa.Instruction) string {
 }
 
 var _ = token.NoPos
+
+// ---------------------------------------------------------------------------
+// refined path counting with the finite-domain evaluator
+//
+// The CFG path counter (engine.CountFrom) merges counts wherever paths join, which loses the link between a flag
+// ("delivered", "settled") and the path that set it.  When it cannot show "exactly one", the same question is put to
+// the evaluator, which runs each path with its flags concrete and carries the event counter along; helpers of the
+// package are summarised by their (result, events) outcomes.
+
+type evalCounter struct {
+	isEvent func(ssa.Instruction) bool
+	pkg     string
+	memo    map[*ssa.Function][]engine.CallOutcome
+	failed  bool
+}
+
+func (ec *evalCounter) hooks(ev *engine.Evaluator, depth int) {
+	ev.CountEvent = func(in ssa.Instruction) int {
+		if ec.isEvent(in) {
+			return 1
+		}
+		return 0
+	}
+	ev.CallOutcomes = func(call *ssa.Call, get func(ssa.Value) engine.EVal) []engine.CallOutcome {
+		if ec.isEvent(call) {
+			return nil
+		}
+		sc := call.Call.StaticCallee()
+		if sc == nil || sc.Blocks == nil || engine.FuncPkgPath(sc) != ec.pkg || len(sc.FreeVars) != 0 {
+			return nil
+		}
+		return ec.summary(sc, depth+1)
+	}
+}
+
+func (ec *evalCounter) summary(f *ssa.Function, depth int) []engine.CallOutcome {
+	if outs, ok := ec.memo[f]; ok {
+		return outs
+	}
+	if depth > 4 {
+		return nil
+	}
+	ec.memo[f] = nil // recursion guard
+	type key struct {
+		k engine.EKind
+		b bool
+		c int
+	}
+	seen := map[key]bool{}
+	var outs []engine.CallOutcome
+	ev := &engine.Evaluator{MaxVisits: 3, MaxPaths: 2000}
+	ec.hooks(ev, depth)
+	ev.AtEnd = func(at ssa.Instruction, count int, get func(ssa.Value) engine.EVal) {
+		v := engine.EVal{}
+		if r, ok := at.(*ssa.Return); ok && len(r.Results) == 1 {
+			if x := get(r.Results[0]); x.K == engine.EBool {
+				v = x
+			}
+		}
+		k := key{v.K, v.B, count}
+		if !seen[k] {
+			seen[k] = true
+			outs = append(outs, engine.CallOutcome{Val: v, Count: count})
+		}
+	}
+	ev.Run(f)
+	if ev.Aborted {
+		ec.failed = true
+		return nil
+	}
+	// an unknown boolean result stands for both values
+	var final []engine.CallOutcome
+	isBool := f.Signature.Results().Len() == 1 && f.Signature.Results().At(0).Type().String() == "bool"
+	for _, o := range outs {
+		if isBool && o.Val.K == engine.EUnknown {
+			final = append(final, engine.CallOutcome{Val: engine.EVal{K: engine.EBool, B: true}, Count: o.Count}, engine.CallOutcome{Val: engine.EVal{K: engine.EBool, B: false}, Count: o.Count})
+		} else {
+			final = append(final, o)
+		}
+	}
+	ec.memo[f] = final
+	return final
+}
+
+// countsFrom: the event counts (0, 1, 2 = two or more) seen at each Return / stop instruction on the paths from block
+// start; ok is false if the exploration had to be cut.
+func evalCountsFrom(start *ssa.BasicBlock, isEvent func(ssa.Instruction) bool, stop func(ssa.Instruction) bool) (map[ssa.Instruction]map[int]bool, bool) {
+	ec := &evalCounter{isEvent: isEvent, pkg: engine.FuncPkgPath(start.Parent()), memo: map[*ssa.Function][]engine.CallOutcome{}}
+	ends := map[ssa.Instruction]map[int]bool{}
+	ev := &engine.Evaluator{MaxVisits: 3, MaxPaths: 4000}
+	ec.hooks(ev, 0)
+	ev.StopAt = stop
+	ev.AtEnd = func(at ssa.Instruction, count int, get func(ssa.Value) engine.EVal) {
+		if ends[at] == nil {
+			ends[at] = map[int]bool{}
+		}
+		ends[at][count] = true
+	}
+	if start == start.Parent().Blocks[0] {
+		ev.Run(start.Parent())
+	} else {
+		ev.RunFromBlock(start)
+	}
+	return ends, !ev.Aborted && !ec.failed
+}
+
+// exactlyOneByEvaluation: every path from start to a return / stop carries exactly one event.
+func exactlyOneByEvaluation(start *ssa.BasicBlock, isEvent func(ssa.Instruction) bool, stop func(ssa.Instruction) bool) bool {
+	ends, ok := evalCountsFrom(start, isEvent, stop)
+	if !ok || len(ends) == 0 {
+		return false
+	}
+	for _, cs := range ends {
+		for c := range cs {
+			if c != 1 {
+				return false
+			}
+		}
+	}
+	return true
+}
